@@ -74,7 +74,26 @@ fn check_linear_greys(vals: &[f32], st: &mut Stats) -> Result<(), Violation> {
     };
     let px = greys_px(vals);
     let n = px.len();
-    // XYB
+    // XYB: the greys are embedded in an image that also holds coloured pixels and repeats of earlier grey
+    // levels (grey, colour, same grey again, ...); only the grey positions are judged
+    let mut mixed: Vec<[f32; 3]> = Vec::with_capacity(3 * n);
+    for (i, p) in px.iter().enumerate() {
+        mixed.push(*p);
+        mixed.push([0.9 - 0.8 * (i % 7) as f32 / 7.0, 0.1 + 0.1 * (i % 5) as f32, (i % 3) as f32 * 0.45]);
+        mixed.push(*p);
+    }
+    let xyb_m = match catch(|| LinearRgb::new(mixed.clone(), 3 * n, 1).map(Xyb::from)) {
+        Ok(Ok(x)) => x,
+        other => return Err(mk("xyb", format!("conversion failed: {:?}", other.map(|r| r.map(|_| ()))), vals[0])),
+    };
+    for (i, g) in vals.iter().enumerate() {
+        for k in [0usize, 2] {
+            let p = xyb_m.data()[3 * i + k];
+            if !(f64::from(p[0]).abs() <= 1e-6) || !((f64::from(p[1]) - f64::from(p[2])).abs() <= 1e-6) {
+                return Err(mk("xyb-grey", format!("linear grey {:e} inside a mixed image (position {}) -> XYB {:?}: |X| or |Y-B| > 1e-6", g, 3 * i + k, p), *g));
+            }
+        }
+    }
     let xyb = match catch(|| LinearRgb::new(px.clone(), n, 1).map(Xyb::from)) {
         Ok(Ok(x)) => x,
         other => return Err(mk("xyb", format!("conversion failed: {:?}", other.map(|r| r.map(|_| ()))), vals[0])),
@@ -278,4 +297,4 @@ pub fn replay(v: &Value) -> Result<(), String> {
     }
 }
 
-pub const RULE: &str = "enumeration: (a) every luma code at every depth 8..16 x 7 matrices x 2 ranges (u8 and u16 at 8 bit) with chroma 2^(n-1): RGB spread <= 5e-7, nominal black exactly 0, nominal white within 1e-6; (b) the 12 non-log curves x 2 directions at 0 (within 1e-6) and 1 (within the C03 budget); (c-e) linear grey levels (quick: 2^20+1 levels k/2^20 and every 4099th f32 bit pattern of [0,1]; thorough: every f32 in [0,1]) through XYB (|X|, |Y-B| <= 1e-6, black -> 0), HSL (H=0, S=0, L=grey) and the 22 primaries conversions (spread <= 1e-5*max(1,|v|)); a case = one ramp / one block of grey levels; all cases are distinct by construction and all are non-trivial (they exercise the neutral axis, which is the subject of the property)";
+pub const RULE: &str = "enumeration: (a) every luma code at every depth 8..16 x 7 matrices x 2 ranges (u8 and u16 at 8 bit) with chroma 2^(n-1): RGB spread <= 5e-7, nominal black exactly 0, nominal white within 1e-6; (b) the 12 non-log curves x 2 directions at 0 (within 1e-6) and 1 (within the C03 budget); (c-e) linear grey levels (quick: 2^20+1 levels k/2^20 and every 4099th f32 bit pattern of [0,1]; thorough: every f32 in [0,1]) through XYB (|X|, |Y-B| <= 1e-6, black -> 0; both as pure grey ramps and embedded in images with coloured pixels and repeated grey levels), HSL (H=0, S=0, L=grey) and the 22 primaries conversions (spread <= 1e-5*max(1,|v|)); a case = one ramp / one block of grey levels; all cases are distinct by construction and all are non-trivial (they exercise the neutral axis, which is the subject of the property)";
